@@ -23,6 +23,7 @@ pub fn check(tier: Tier) -> Check {
         tier.pick(45, 900),
     )];
     Check {
+        also_rel: true,
         property: "C16",
         level: "model_checking",
         rule: "every event script (operation starts, acknowledgements, subscribe/stream/inbound message) up to the stated depth x polling discipline {wake-only, sweep of all tasks after every event, one spurious poll inserted at every position for every task} x {whole-packet, 1-byte reads} x {accept-all, 1-byte, Pending-first writes}; evaluations counts single runs; non-trivial = a script in which at least one operation completed through an acknowledgement".into(),
